@@ -103,3 +103,51 @@ package mpegts
 //@   assert[call:io.Writer.Write] !(atHead(first) && frame.key) && pkt[3]&0x20 != 0 && pkt[4] > 0 ==> pkt[5] == 0
 //@   assert[call:io.Writer.Write] pos < last ==> (pkt[3]&0x20 != 0) == (atHead(first) && frame.key) && (pkt[3]&0x20 != 0 ==> pkt[4] == 7)
 //@   assert[call:io.Writer.Write] 4 <= payloadStart(&pkt) && payloadStart(&pkt) + iteInt(atHead(first), pesHdrLen(frame), 0) < 188
+
+// ---- the packetisers: codec.Frame -> mpegts.Frame (C09) ---------------------------------------------------------------
+//@ import "github.com/cnotch/ipchub/av/codec"
+//@ import "github.com/cnotch/ipchub/av/codec/aac"
+// frames(w): ghost sequence of the frames handed to the TS frame writer, in order
+//@ extern func (w FrameWriter) WriteMpegtsFrame(frame *Frame) (err error)
+//@   requires frame != nil
+//@   modifies
+//@   appends ghostSeq(w, "frames"), frame
+// nanoseconds to 90 kHz ticks: floor(ns * 9 / 100000). For the times a stream can reach (timeOK: up to 2^59 ns, about 18
+// years) the product ns*9 stays below 2^63, so the 64-bit expression below IS that mathematical value - whereas
+// ns*90000 (the reduced fraction's unreduced form) wraps after about 28.5 hours
+//@ spec func to90k(ns int64) int64 = ns * 9 / 100000
+//@ spec func timeOK(ns int64) bool = 0 <= ns && ns < 1<<59
+//@ func (frame *Frame) prepareAvcHeader(sps []byte, pps []byte) ()
+//@   trusted
+//@   requires frame != nil && len(frame.Payload) >= 1
+//@   modifies frame.Header
+// video: PID 256, stream id 0xe0, key flag exactly for an IDR slice, DTS/PTS = the frame's times in 90 kHz ticks,
+// the payload is the source NAL unit itself (same bytes, not a copy)
+//@ func (h264p *h264Packetizer) Packetize(frame *codec.Frame) (err error)
+//@   requires h264p != nil && h264p.meta != nil && h264p.tsframeWriter != nil && frame != nil && len(frame.Payload) >= 1 && timeOK(frame.Dts) && timeOK(frame.Pts)
+//@   modifies ghostSeq(h264p.tsframeWriter, "frames")
+//@   local tsframe *Frame
+//@   assert[call:WriteMpegtsFrame] tsframe != nil && tsframe.Pid == 256 && tsframe.StreamID == 0xe0 && tsframe.key == (frame.Payload[0]&0x1f == 5) && sameSlice(tsframe.Payload, frame.Payload)
+//@   assert[call:WriteMpegtsFrame] tsframe.Dts == to90k(frame.Dts) && tsframe.Pts == to90k(frame.Pts)
+//@   ensures len(ghostSeq(h264p.tsframeWriter, "frames")) == old(len(ghostSeq(h264p.tsframeWriter, "frames"))) + 1
+// audio: PID 257, stream id 0xc0, DTS = PTS = the presentation time in 90 kHz ticks, ADTS header for exactly this
+// payload length; a packetiser whose AudioSpecificConfig could not be decoded must not take the converter down
+//@ extern func (asc *aac.AudioSpecificConfig) ToAdtsHeader(payloadSize int) (h aac.ADTSHeader)
+//@   requires asc != nil
+//@   modifies
+//@ func (ap *aacPacketizer) prepareAsc() (err error)
+//@   trusted
+//@   requires ap != nil
+//@   modifies ap.audioSps
+//@   ensures err == nil ==> ap.audioSps != nil
+// the constructor hands out a real packetiser only with a decoded AudioSpecificConfig (otherwise audio is not converted)
+//@ func NewAacPacketizer(meta *codec.AudioMeta, tsframeWriter FrameWriter) (p Packetizer)
+//@   modifies
+//@   ensures typeIs(p, "*aacPacketizer") ==> p.(*aacPacketizer) != nil && p.(*aacPacketizer).audioSps != nil && p.(*aacPacketizer).tsframeWriter == tsframeWriter
+//@   ensures typeIs(p, "*aacPacketizer") || typeIs(p, "emptyPacketizer")
+//@ func (ap *aacPacketizer) Packetize(frame *codec.Frame) (err error)
+//@   requires ap != nil && ap.audioSps != nil && ap.tsframeWriter != nil && frame != nil && timeOK(frame.Pts)
+//@   modifies ghostSeq(ap.tsframeWriter, "frames")
+//@   local tsframe *Frame
+//@   assert[call:WriteMpegtsFrame] tsframe != nil && tsframe.Pid == 257 && tsframe.StreamID == 0xc0 && tsframe.Dts == to90k(frame.Pts) && tsframe.Pts == to90k(frame.Pts) && sameSlice(tsframe.Payload, frame.Payload) && len(tsframe.Header) == 7
+//@   ensures len(ghostSeq(ap.tsframeWriter, "frames")) <= old(len(ghostSeq(ap.tsframeWriter, "frames"))) + 1
